@@ -56,6 +56,9 @@ def gen_overload(rng, tag, kind, no_kwargs, lazy_ok):
                 default = 'dflt'
             elif t == 'object' and rng.random() < 0.3:
                 default = 9
+            elif rng.random() < 0.12:
+                nullable = False        # a declared default (null) that the parameter's own type does not accept: the
+                #                         omitted argument fails the type filter exactly like an explicit null
             else:
                 nullable = True
         lazy = lazy_ok and rng.random() < 0.07 and not (i == 0 and kind != 'function')
